@@ -313,3 +313,44 @@ def show(e, depth=0):
     if k == "fn":
         return "fn:%s" % e[1]
     return str(e)
+
+
+# ---------------------------------------------------------------------------
+# which branch decisions control an assignment (used for predicate closures)
+
+
+def controlling_decisions(body, cfg, target_bb):
+    """[(switch_bb, frozenset(values leading to target), all_values)] for every switch that dominates
+    target_bb and some of whose out-edges cannot reach it.  'otherwise' is reported as the string 'else'."""
+    out = []
+    dom = cfg.dom().get(target_bb, set())
+    for s in sorted(dom):
+        t = body.blocks[s]["term"]
+        if t["k"] != "switch" or s == target_bb:
+            continue
+        edges = [(v, b) for v, b in t["targets"]] + [("else", t["otherwise"])]
+        reach_vals = []
+        for v, b in edges:
+            if body.blocks[b]["term"]["k"] == "unreachable" and not body.blocks[b]["stmts"]:
+                continue
+            r = cfg.reachable_from(b, avoid={s})
+            if target_bb in r:
+                reach_vals.append(v)
+        live = [v for v, b in edges if not (body.blocks[b]["term"]["k"] == "unreachable" and not body.blocks[b]["stmts"])]
+        if 0 < len(reach_vals) < len(live):
+            out.append((s, frozenset(reach_vals), tuple(live)))
+    return out
+
+
+def const_assignments(body, local=0):
+    """[(bb, const value)] for statements `_local = const c`"""
+    out = []
+    for bi, blk in enumerate(body.blocks):
+        if blk["cleanup"]:
+            continue
+        for s in blk["stmts"]:
+            if s["k"] == "assign" and s["place"]["local"] == local and not s["place"]["proj"] and s["rv"]["k"] == "use" and "const" in s["rv"]["x"]:
+                c = s["rv"]["x"]["const"]
+                if "int" in c:
+                    out.append((bi, int(c["int"])))
+    return out
